@@ -37,6 +37,9 @@ STMT_POS = [
     'def deco_{N}(v):\n    return lambda f: (v, f())\n@deco_{N}({L})\ndef decorated_{N}():\n    return {L}\nprint(decorated_{N})',
     'match {L}:\n    case {P}:\n        print("matched", {L})\n    case _ if {L}:\n        print("guard", {L})\n    case _:\n        print("default", {L})',
     'class Slotted_{N}:\n    __slots__ = ({S}, "other_{N}")\n    kind = {L}\nprint(Slotted_{N}.kind, Slotted_{N}.__slots__)',
+    'import sys\nclass SlottedIf_{N}:\n    if sys.version_info >= (3, 0):\n        __slots__ = ({S}, "other_{N}")\n    else:\n        __slots__ = ({S}, "other_{N}", "__weakref__")\n    kind = {L}\nprint(SlottedIf_{N}.kind, SlottedIf_{N}.__slots__)',
+    'class SlottedTry_{N}:\n    try:\n        __slots__ = [{S}, {S} + "_b"]\n    except NameError:\n        __slots__ = [{S}]\n    finally:\n        kind = {L}\nprint(SlottedTry_{N}.kind, SlottedTry_{N}.__slots__)',
+    'def slotted_factory_{N}():\n    class Inner_{N}:\n        for _unused_{N} in (1,):\n            __slots__ = {{S}: "doc of slot", "other_{N}": {S}}\n        kind = {L}\n    return Inner_{N}\nprint(sorted(slotted_factory_{N}().__slots__), {S})',
     'class Doc_{N}:\n    {D}\n    attr = {L}\n    def method(self):\n        {D}\n        return {L}, self.attr\nprint(Doc_{N}().method(), Doc_{N}.__doc__)',
     'assert {L} is not Ellipsis, {L}',
     'try:\n    raise ValueError({L})\nexcept ValueError as err_{N}:\n    print(err_{N}.args == ({L},))',
